@@ -506,6 +506,11 @@ def _gadget_outputs(acc, fn, case, feats, c, before, res, add_outputs, rl):
     return True
 
 
+def VARIANT_PRED(t, v):
+    k = t.get('kind')
+    return k == 'gadgets' or (k == 'sub' and t['na'] + t['nb'] <= 4) or (k == 'div' and t['n'] <= 3) or (k == 'sqrt' and t['n'] <= 4) or (k == 'equal' and t['n'] <= 3) or (k == 'plus' and t['inp'] <= 2)
+
+
 def plan(tier):
     q = tier == 'quick'
     t = [{'kind': 'gadgets'}]
